@@ -808,6 +808,97 @@ def inplace_alias_updates(fn):
     return out
 
 
+def _array_attrs(ix, key):
+    """attributes of the class of `key` that hold pandas / numpy objects: annotated so where they are bound (self.cache: dict[str, pd.Series] = {})"""
+    cls = ix.cls_of.get(key)
+    if cls is None:
+        return set()
+    out = set()
+    for k, fn in ix.funcs.items():
+        if k[0] == key[0] and ix.cls_of.get(k) == cls:
+            for n in ast.walk(fn):
+                if isinstance(n, ast.AnnAssign) and isinstance(n.target, ast.Attribute) and isinstance(n.target.value, ast.Name) and n.target.value.id == 'self' and any(h in ast.unparse(n.annotation) for h in ARRAY_HINTS):
+                    out.add(n.target.attr)
+    return out
+
+
+def returns_shared(ix, key):
+    """name of the container when the function can return an object that is also stored in a container of pandas / numpy objects (a cache hit, or
+    the object it has just put into the cache) - without copying it"""
+    fn = ix.funcs[key]
+    attrs = _array_attrs(ix, key)
+    conts = _array_containers(fn)
+
+    def container_of(e):
+        # C[k] / C.get(k) / self.attr[k] / self.attr.get(k)
+        base = None
+        if isinstance(e, ast.Subscript):
+            base = e.value
+        elif isinstance(e, ast.Call) and isinstance(e.func, ast.Attribute) and e.func.attr in ('get', 'setdefault') and e.args:
+            base = e.func.value
+        if isinstance(base, ast.Name) and base.id in conts:
+            return base.id
+        if isinstance(base, ast.Attribute) and isinstance(base.value, ast.Name) and base.value.id == 'self' and base.attr in attrs:
+            return f'self.{base.attr}'
+        return None
+    shared = {}
+    for n in ast.walk(fn):
+        if isinstance(n, ast.Assign) and len(n.targets) == 1:
+            t, v = n.targets[0], n.value
+            if isinstance(t, ast.Name) and container_of(v):
+                shared[t.id] = container_of(v)
+            if isinstance(t, ast.Subscript) and isinstance(v, ast.Name):
+                c = container_of(ast.Subscript(value=t.value, slice=t.slice, ctx=ast.Load()))
+                if c:
+                    shared[v.id] = c
+    for r in ast.walk(fn):
+        if isinstance(r, ast.Return) and r.value is not None:
+            if container_of(r.value):
+                return container_of(r.value)
+            if isinstance(r.value, ast.Name) and r.value.id in shared:
+                return shared[r.value.id]
+    return None
+
+
+def inplace_updates_of_shared_results(ix, repo, key):
+    """x = f(..) where f can return a shared (cached) pandas / numpy object, then `x += ..`"""
+    fn = ix.funcs[key]
+    m = repo.modules[key[0]]
+    order = {}
+
+    def number(node):
+        order[id(node)] = len(order)
+        for c in ast.iter_child_nodes(node):
+            number(c)
+    number(fn)
+    binds = {}
+    for n in ast.walk(fn):
+        if isinstance(n, ast.Assign) and len(n.targets) == 1 and isinstance(n.targets[0], ast.Name):
+            binds.setdefault(n.targets[0].id, []).append(n)
+    out = []
+    for n in ast.walk(fn):
+        if isinstance(n, ast.AugAssign) and isinstance(n.target, ast.Name):
+            prev = [b for b in binds.get(n.target.id, []) if order[id(b)] < order[id(n)]]
+            if not prev:
+                continue
+            b = max(prev, key=lambda x: order[id(x)])
+            v = b.value
+            if not isinstance(v, ast.Call):
+                continue
+            callee = None
+            f = v.func
+            if isinstance(f, ast.Attribute) and isinstance(f.value, ast.Name) and f.value.id in ('self', 'cls') and ix.cls_of.get(key) is not None:
+                callee = (key[0], f'{ix.cls_of[key]}.{f.attr}')
+            elif isinstance(f, ast.Name):
+                r = ix._resolve_name(m, key[0], f.id)
+                callee = next(iter(r)) if r and len(r) == 1 else None
+            if callee in ix.funcs:
+                c = returns_shared(ix, callee)
+                if c:
+                    out.append((b, n, c, callee[1]))
+    return out
+
+
 def check_inplace(repo, chk, pid):
     if pid not in INPLACE_PROPS:
         return
@@ -822,11 +913,97 @@ def check_inplace(repo, chk, pid):
             chk.bad(oid, 'R11', site(repo, key[0], key[1], aug), f'{norm(b)[:60]} ... {norm(aug)[:60]}',
                     f'`{aug.target.id}` is the very object stored in `{cont}` (bound without a copy) and `{norm(aug)[:40]}` updates a pandas / numpy object in place: the element of `{cont}` itself changes, '
                     'so every later reader of it (the next combination that shares the constituent, the caller\'s frame) sees the modified values')
+        for b, aug, cont, callee in inplace_updates_of_shared_results(ix, repo, key):
+            chk.bad(oid, 'R11', site(repo, key[0], key[1], aug), f'{norm(b)[:60]} ... {norm(aug)[:60]}',
+                    f'`{aug.target.id}` is what {callee} returned, and {callee} hands out the object it keeps in `{cont}` (a cache hit, or the object it has just cached) without copying it; `{norm(aug)[:40]}` updates a pandas / numpy '
+                    'object in place, so the cached entry itself changes and every later use of it (the next combination that shares the constituent) sees the modified values')
         n += 1
     chk.ok(oid, 'R11', 'outrank/', 'in-place updates through an alias of a column / cached array', f'{n} function(s) on this property\'s path: no `x = C[k]; x += ..` on pandas / numpy elements', inspected=n)
 
 
+# ---------------------------------------------------------------------------
+# H7 no mutable class attribute used as per-instance state
+# ---------------------------------------------------------------------------
+
+def shared_class_state(ix, mn, cname):
+    """[(attribute, class-level binding, mutating node, method)] - a list / dict / set bound in the CLASS body, mutated through `self.<attr>` by a
+    method, and never re-bound per instance in __init__: one object shared by all instances (and all calls that create one)"""
+    cls = ix.classes.get((mn, cname))
+    if cls is None:
+        return []
+    bound = {}
+    for st in cls.body:
+        t, v = None, None
+        if isinstance(st, ast.Assign) and len(st.targets) == 1 and isinstance(st.targets[0], ast.Name):
+            t, v = st.targets[0].id, st.value
+        elif isinstance(st, ast.AnnAssign) and isinstance(st.target, ast.Name) and st.value is not None:
+            t, v = st.target.id, st.value
+        if t and (isinstance(v, (ast.List, ast.Dict, ast.Set)) or (isinstance(v, ast.Call) and isinstance(v.func, ast.Name) and v.func.id in ('list', 'dict', 'set', 'defaultdict', 'Counter', 'deque') and not v.args)):
+            bound[t] = st
+    if not bound:
+        return []
+    init = ix.funcs.get((mn, f'{cname}.__init__'))
+    rebound = set()
+    for holder in ([init] if init is not None else []) + [ix.funcs[k] for k in ix.funcs if k[0] == mn and k[1] == f'{cname}.__post_init__']:
+        for n in ast.walk(holder):
+            if isinstance(n, (ast.Assign, ast.AnnAssign)):
+                for t in (n.targets if isinstance(n, ast.Assign) else [n.target]):
+                    if isinstance(t, ast.Attribute) and isinstance(t.value, ast.Name) and t.value.id == 'self':
+                        rebound.add(t.attr)
+    out = []
+    for k, fn in ix.funcs.items():
+        if k[0] != mn or ix.cls_of.get(k) != cname:
+            continue
+        for n in ast.walk(fn):
+            attr = None
+            if isinstance(n, ast.Call) and isinstance(n.func, ast.Attribute) and n.func.attr in MUTATORS and isinstance(n.func.value, ast.Attribute) and isinstance(n.func.value.value, ast.Name) and n.func.value.value.id == 'self':
+                attr = n.func.value.attr
+            elif isinstance(n, (ast.Assign, ast.AugAssign)):
+                for t in (n.targets if isinstance(n, ast.Assign) else [n.target]):
+                    if isinstance(t, ast.Subscript) and isinstance(t.value, ast.Attribute) and isinstance(t.value.value, ast.Name) and t.value.value.id == 'self':
+                        attr = t.value.attr
+                    elif isinstance(n, ast.AugAssign) and isinstance(t, ast.Attribute) and isinstance(t.value, ast.Name) and t.value.id == 'self':
+                        attr = t.attr
+            if attr in bound and attr not in rebound:
+                out.append((attr, bound[attr], n, k[1]))
+    return out
+
+
+def check_class_state(repo, chk, pid):
+    roots = ROOTS.get(pid)
+    if not roots:
+        return
+    ix = index(repo)
+    oid = f'{pid}.H7'
+    funcs = ix.closure(roots, pid in DEEP)
+    classes = sorted({(k[0], ix.cls_of[k]) for k in funcs if ix.cls_of.get(k)})
+    # classes instantiated by the functions on the path
+    for k in list(funcs):
+        m = repo.modules[k[0]]
+        for n in ast.walk(ix.funcs[k]):
+            if isinstance(n, ast.Call) and isinstance(n.func, ast.Name):
+                if (k[0], n.func.id) in ix.classes:
+                    classes.append((k[0], n.func.id))
+                else:
+                    d = m.imports.get(n.func.id, '')
+                    if d.startswith(PKG + '.'):
+                        mm, _, cn = d.rpartition('.')
+                        if (mm, cn) in ix.classes:
+                            classes.append((mm, cn))
+    seen = set()
+    for mn, cname in classes:
+        if (mn, cname) in seen:
+            continue
+        seen.add((mn, cname))
+        for attr, binding, node, meth in shared_class_state(ix, mn, cname)[:1]:
+            chk.bad(oid, 'R19', site(repo, mn, meth, node), f'{cname}.{attr} = {norm(binding.value)} (class body) ... {norm(node)[:60]}',
+                    f'`{attr}` is bound once, in the class body, to a mutable object and {meth.split(".")[-1]} changes it through `self.{attr}` without __init__ ever giving the instance an object of its own: '
+                    'all instances share it, so a second call (a second batch, a second ranking) continues from what the first one left in it')
+    chk.ok(oid, 'R19', 'outrank/', 'mutable class attributes used as per-instance state', f'{len(seen)} class(es) on this property\'s path inspected', inspected=max(1, len(seen)))
+
+
 def run(repo, chk, pid):
+    check_class_state(repo, chk, pid)
     check_inplace(repo, chk, pid)
     check_single_use(repo, chk, pid)
     check_config(repo, chk, pid)
